@@ -1,5 +1,3 @@
-
-
 package mon
 
 import (
@@ -89,7 +87,9 @@ func (g G) Blocked() bool {
 	return false
 }
 
-func (g G) Key() string { return strconv.Itoa(g.ID) + "|" + g.State + "|" + strings.Join(g.Frames, ";") }
+func (g G) Key() string {
+	return strconv.Itoa(g.ID) + "|" + g.State + "|" + strings.Join(g.Frames, ";")
+}
 
 // sameBlocked: both sets hold the same goroutines, all blocked, same frames.
 func SameBlocked(a, b []G) bool {
